@@ -14,6 +14,7 @@ import (
 	"time"
 
 	"golang.org/x/crypto/ssh"
+	"golang.org/x/crypto/ssh/agent"
 
 	"github.com/theparanoids/ysshra/agent/yubiagent"
 	"github.com/theparanoids/ysshra/verifharness/lib/ev"
@@ -474,6 +475,33 @@ func main() {
 					raw := append(l[:], gen.Bytes(r.CaseAlways("decl", int(decl>>8)+nb).Rand, nb)...)
 					submit("table", []piece{{raw: raw, class: cls, note: fmt.Sprintf("declared %d, %d body bytes", decl, nb)}}, false)
 					submit("table", []piece{wf(frames.Frame{Body: []byte{11}, Kind: frames.KList, Name: "list"}), {raw: raw, class: cls, note: fmt.Sprintf("declared %d, %d body bytes", decl, nb)}}, false)
+				}
+			}
+			// add-identity-constrained frames whose constraint tail is cut short or continued with a partial constraint
+			seenType := map[string]bool{}
+			for _, k := range gen.Pool() {
+				if seenType[k.Name] {
+					continue
+				}
+				seenType[k.Name] = true
+				for _, withCert := range []bool{false, true} {
+					ak := agent.AddedKey{PrivateKey: k.Priv, Comment: "c", LifetimeSecs: 3600, ConfirmBeforeUse: true}
+					if withCert {
+						ak.Certificate = gen.MakeCert(gen.CertSpec{Key: k, KeyID: "x", ValidAfter: now - 10, ValidBefore: now + 10})
+					}
+					full := frames.Captured(func(a agent.ExtendedAgent) { a.Add(ak) })[0]
+					var variants [][]byte
+					for cut := 1; cut <= 6; cut++ {
+						variants = append(variants, full[:len(full)-cut])
+					}
+					for _, tail := range [][]byte{{1}, {1, 0}, {1, 0, 0}, {1, 0, 0, 0}, {2, 1}, {2, 1, 0, 0}, {255}, {255, 0, 0, 0, 9}, {3, 0, 0, 0, 1}, {9}} {
+						variants = append(variants, append(append([]byte{}, full...), tail...))
+					}
+					for _, v := range variants {
+						pc := piece{raw: wire.Frame(v), class: "malformed", note: fmt.Sprintf("add %s with a broken constraint tail", k.Name)}
+						submit("table", []piece{pc}, false)
+						submit("table", []piece{pc, wf(frames.Frame{Body: []byte{11}, Kind: frames.KList, Name: "list"})}, true)
+					}
 				}
 			}
 			r.Extra("table_streams", idx)
